@@ -210,3 +210,51 @@ def vec_close(obs, exp, tol=1e-8):
         return False
     s = max(1.0, float(np.max(np.abs(exp))))
     return bool(np.max(np.abs(obs - exp)) <= tol * s)
+
+
+def run_jobs(chk, jobs, parallel=5, workers=4):
+    """Run several TLC jobs concurrently, then replay their states sequentially.
+
+    job: dict(module=, cfg=, part=, replay=callable(state) [, kw=dict of tlc.run args,
+              after=callable(result)])
+    """
+    from concurrent.futures import ThreadPoolExecutor
+    import threading
+    lock = threading.Lock()
+    only = getattr(chk, 'only_parts', None)
+    jobs = [j for j in jobs if not only or j['part'] in only]
+
+    def launch(job):
+        kw = dict(job.get('kw', {}))
+        kw.setdefault('workers', workers)
+        kw.setdefault('tag', '%s-%s' % (chk.prop, job['module']))
+        return tlcmod.run(job['module'], job['cfg'], **kw)
+
+    results = []
+    try:
+        with ThreadPoolExecutor(max_workers=parallel) as ex:
+            futs = [ex.submit(launch, j) for j in jobs]
+            err = None
+            for j, f in zip(jobs, futs):
+                try:
+                    results.append((j, f.result()))
+                except Exception as e:  # keep collecting so that work dirs get cleaned
+                    err = err or e
+            if err:
+                raise err
+        for job, res in results:
+            chk.states += res.distinct
+            chk.transitions += res.generated
+            chk.tlc_runs.append({'module': job['module'], 'part': job['part'], 'distinct': res.distinct,
+                                 'generated': res.generated, 'depth': res.depth, 'wall_s': round(res.wall, 2),
+                                 'mode': 'simulate' if job.get('kw', {}).get('simulate') else 'exhaustive'})
+            p = chk.part(job['part'])
+            p['spec_states'] = p.get('spec_states', 0) + res.distinct
+            if job.get('replay'):
+                for st in res.states():
+                    job['replay'](st)
+            if job.get('after'):
+                job['after'](res)
+    finally:
+        for _j, res in results:
+            tlcmod.cleanup(res.workdir)
